@@ -53,6 +53,12 @@ structure Node where
   fs : Fs := []
 deriving Repr, Inhabited
 
+/-- `Databases::next_database_id`: one past the largest database id in use -/
+def nextDbId (dbs : List (Bytes × Db)) : Nat :=
+  match dbs with
+  | [] => 0
+  | _ => (dbs.foldl (fun m p => max m p.2.id) 0) + 1
+
 inductive Resp
   | value (key value : Bytes) (version : Int)
   | ok
@@ -439,7 +445,7 @@ def Node.processObj (recur : Node → Sid → Bytes → Node × Out) (n : Node) 
   | .createDb token name strategy =>
     if !s.auth then (n, notAuth) else
     if n.isPrimary || (match s.member with | some (_, r) => r = .primary | none => false) then
-      let tmp := Db.new name n.dbs.length strategy
+      let tmp := Db.new name (nextDbId n.dbs) strategy
       match n.setKeyValue tmp Gen.tokenKey token (-1) with
       | (n, tmp, _, _) =>
         match n.addDatabase tmp with
